@@ -46,7 +46,13 @@ theorem mem_emit (verify : Bool) (d : Nat) (e : Ev) (c : Call) (hc : c ∈ emit 
     c.done = d ∧ c.piece = e.piece ∧ (c.exc.isSome ↔ (verify = true ∧ (e.kind = .exc ∨ e.kind = .mismatch))) := by
   unfold emit at hc
   cases verify with
-  | false => simp at hc; subst hc; simp
+  | false =>
+    simp only [Bool.false_eq_true, if_false] at hc
+    cases hk : e.kind <;> simp only [hk] at hc
+    · simp at hc; subst hc; simp
+    · simp at hc; subst hc; simp
+    · simp at hc; subst hc; simp
+    · simp at hc
   | true =>
     simp only [if_true] at hc
     cases hk : e.kind <;> simp only [hk] at hc
@@ -80,7 +86,9 @@ def Ordered (a b : Call) : Prop :=
 theorem emit_pairwise (verify : Bool) (d : Nat) (e : Ev) : (emit verify d e).Pairwise Ordered := by
   unfold emit
   cases verify with
-  | false => simp
+  | false =>
+    simp only [Bool.false_eq_true, if_false]
+    cases hk : e.kind <;> simp
   | true =>
     simp only [if_true]
     cases hk : e.kind <;> simp only
@@ -131,7 +139,7 @@ theorem callsFrom_zero (verify : Bool) (interval : Int) (hi : interval ≤ 0) (t
 /-- (D) the last result of a complete run is always reported with `done = total` -/
 theorem callsFrom_final (verify : Bool) (interval : Int) (total : Nat) (evs : List Ev)
     (prev : Int) (d : Nat) (hne : evs ≠ []) (htot : d + evs.length = total)
-    (hexc : ∀ e ∈ evs, e.kind = .exc → 1 ≤ e.nexc) :
+    (hexc : ∀ e ∈ evs, e.kind = .exc → verify = true ∧ 1 ≤ e.nexc) :
     ∃ c, (callsFrom verify interval total prev d evs).getLast? = some c ∧ c.done = total := by
   induction evs generalizing prev d with
   | nil => exact absurd rfl hne
@@ -147,14 +155,20 @@ theorem callsFrom_final (verify : Bool) (interval : Int) (total : Nat) (evs : Li
       have hne' : emit verify (d + 1) e ≠ [] := by
         unfold emit
         cases verify with
-        | false => simp
+        | false =>
+          simp only [Bool.false_eq_true, if_false]
+          cases hk : e.kind <;> simp only
+          · simp
+          · simp
+          · simp
+          · exact absurd (hexc e (by simp) hk).1 (by simp)
         | true =>
           simp only [if_true]
           cases hk : e.kind <;> simp only
           · simp
           · simp
           · simp
-          · have := hexc e (by simp) hk
+          · have := (hexc e (by simp) hk).2
             intro h0
             have hl := congrArg List.length h0
             simp at hl; omega
@@ -167,7 +181,7 @@ theorem callsFrom_final (verify : Bool) (interval : Int) (total : Nat) (evs : Li
       have := (mem_emit verify (d + 1) e c hmem).1
       omega
     · have hlen : (d + 1) + es.length = total := by simp only [List.length_cons] at htot; omega
-      have hexc' : ∀ x ∈ es, x.kind = .exc → 1 ≤ x.nexc := fun x hx => hexc x (by simp [hx])
+      have hexc' : ∀ x ∈ es, x.kind = .exc → verify = true ∧ 1 ≤ x.nexc := fun x hx => hexc x (by simp [hx])
       split
       · obtain ⟨c, hc, hd⟩ := ih e.now (d + 1) hes hlen hexc'
         refine ⟨c, ?_, hd⟩
